@@ -556,6 +556,99 @@ impl Conn {
 	}
 }
 
+// ------------------------------------------------------------------------------------------------
+// the same readers over any `AsyncRead` (used with split sockets by the C10 reader tasks)
+
+async fn fill_from<R: tokio::io::AsyncRead + Unpin>(r: &mut R, buf: &mut Vec<u8>) -> std::io::Result<usize> {
+	let mut tmp = [0u8; 4096];
+	let n = r.read(&mut tmp).await?;
+	buf.extend_from_slice(&tmp[..n]);
+	Ok(n)
+}
+
+/// One HTTP response from `r` (`None` = EOF before a complete response).
+pub async fn read_http_response<R: tokio::io::AsyncRead + Unpin>(r: &mut R, buf: &mut Vec<u8>) -> std::io::Result<Option<HttpResp>> {
+	loop {
+		if let Some(pos) = find(buf, b"\r\n\r\n") {
+			let head = String::from_utf8_lossy(&buf[..pos]).to_string();
+			let mut lines = head.split("\r\n");
+			let status: u16 = lines.next().and_then(|l| l.split(' ').nth(1)).and_then(|s| s.parse().ok()).unwrap_or(0);
+			let mut len = 0usize;
+			for l in lines {
+				if let Some((k, v)) = l.split_once(':') {
+					if k.eq_ignore_ascii_case("content-length") {
+						len = v.trim().parse().unwrap_or(0);
+					}
+				}
+			}
+			let total = pos + 4 + len;
+			while buf.len() < total {
+				if fill_from(r, buf).await? == 0 {
+					return Ok(None);
+				}
+			}
+			let body = buf[pos + 4..total].to_vec();
+			buf.drain(..total);
+			return Ok(Some(HttpResp { status, body }));
+		}
+		if fill_from(r, buf).await? == 0 {
+			return Ok(None);
+		}
+	}
+}
+
+/// One unfragmented server frame `(opcode, payload)` from `r` (`None` = EOF).
+pub async fn read_ws_frame<R: tokio::io::AsyncRead + Unpin>(r: &mut R, buf: &mut Vec<u8>) -> std::io::Result<Option<(u8, Vec<u8>)>> {
+	loop {
+		if buf.len() >= 2 {
+			let op = buf[0] & 0x0f;
+			let l0 = (buf[1] & 0x7f) as usize;
+			let (hdr, len) = if l0 < 126 {
+				(2, Some(l0))
+			} else if l0 == 126 {
+				(4, if buf.len() >= 4 { Some(u16::from_be_bytes([buf[2], buf[3]]) as usize) } else { None })
+			} else {
+				(10, if buf.len() >= 10 { Some(u64::from_be_bytes(buf[2..10].try_into().unwrap()) as usize) } else { None })
+			};
+			if let Some(len) = len {
+				if buf.len() >= hdr + len {
+					let payload = buf[hdr..hdr + len].to_vec();
+					buf.drain(..hdr + len);
+					return Ok(Some((op, payload)));
+				}
+			}
+		}
+		if fill_from(r, buf).await? == 0 {
+			return Ok(None);
+		}
+	}
+}
+
+/// A masked client frame.
+pub fn ws_frame(opcode: u8, payload: &[u8]) -> Vec<u8> {
+	let mut f = Vec::with_capacity(payload.len() + 14);
+	f.push(0x80 | (opcode & 0x0f));
+	let mask = [0x12u8, 0x34, 0x56, 0x78];
+	if payload.len() < 126 {
+		f.push(0x80 | payload.len() as u8);
+	} else if payload.len() < 65536 {
+		f.push(0x80 | 126);
+		f.extend_from_slice(&(payload.len() as u16).to_be_bytes());
+	} else {
+		f.push(0x80 | 127);
+		f.extend_from_slice(&(payload.len() as u64).to_be_bytes());
+	}
+	f.extend_from_slice(&mask);
+	f.extend(payload.iter().enumerate().map(|(i, b)| b ^ mask[i % 4]));
+	f
+}
+
+/// `id` member of a JSON-RPC reply as u64, if any.
+pub fn reply_id(body: &[u8]) -> Option<u64> {
+	let v: serde_json::Value = serde_json::from_slice(body).ok()?;
+	v.get("id")?.as_u64()
+}
+
 fn find(hay: &[u8], needle: &[u8]) -> Option<usize> {
 	hay.windows(needle.len()).position(|w| w == needle)
 }
